@@ -584,10 +584,12 @@ func (interp *Interpreter) cfg(root *node, sc *scope, importPath, pkgName string
 			sc = sc.pushBloc()
 
 		case switchStmt, switchIfStmt, typeSwitch:
-			// Make sure default clause is in last position.
+			// Make sure default clause is in last position, the other clauses stay in order.
 			c := n.lastChild().child
 			if i, l := getDefault(n), len(c)-1; i >= 0 && i != l {
-				c[i], c[l] = c[l], c[i]
+				d := c[i]
+				copy(c[i:], c[i+1:])
+				c[l] = d
 			}
 			sc = sc.pushBloc()
 			sc.loop = n
@@ -2130,14 +2132,14 @@ func (interp *Interpreter) cfg(root *node, sc *scope, importPath, pkgName string
 					c.child[0].tnext = c
 					c.start = c.child[0].start
 
-					if i < l-1 && len(body.child) > 0 && body.lastChild().kind == fallthroughtStmt {
+					if next := nextClause(c); next != nil && len(body.child) > 0 && body.lastChild().kind == fallthroughtStmt {
 						if n.kind == typeSwitch {
 							err = body.lastChild().cfgErrorf("cannot fallthrough in type switch")
 						}
-						if len(clauses[i+1].child) == 0 {
+						if len(next.child) == 0 {
 							body.tnext = n // Fallthrough to next with empty body, just exit.
 						} else {
-							body.tnext = clauses[i+1].lastChild().start
+							body.tnext = next.lastChild().start
 						}
 					} else {
 						body.tnext = n // Exit switch at end of clause body.
@@ -2196,8 +2198,8 @@ func (interp *Interpreter) cfg(root *node, sc *scope, importPath, pkgName string
 						c.start = body.start
 					}
 					// If last case body statement is a fallthrough, then jump to next case body
-					if i < l-1 && len(body.child) > 0 && body.lastChild().kind == fallthroughtStmt {
-						body.tnext = clauses[i+1].lastChild().start
+					if next := nextClause(c); next != nil && len(next.child) > 0 && len(body.child) > 0 && body.lastChild().kind == fallthroughtStmt {
+						body.tnext = next.lastChild().start
 					} else {
 						body.tnext = n
 					}
@@ -2621,6 +2623,19 @@ func setFNext(cond, next *node) {
 		return
 	}
 	cond.fnext = next
+}
+
+// nextClause returns the clause which follows clause c in the source, or nil. It is the
+// target of a fallthrough statement. The order of clauses in the AST can not be used for
+// that, as the default clause is moved to the last position.
+func nextClause(c *node) *node {
+	var next *node
+	for _, s := range c.anc.child {
+		if s.pos > c.pos && (next == nil || s.pos < next.pos) {
+			next = s
+		}
+	}
+	return next
 }
 
 // GetDefault return the index of default case clause in a switch statement, or -1.
